@@ -31,6 +31,9 @@ structure Inv (s : State) : Prop where
   queued : ∀ i, i < s.heap.size → s.rc i = 0 → s.isFreed i = false → i ∈ s.pendingFree ∨ i ∈ s.fresh
   /-- queued indices are slots -/
   pendLt : ∀ j ∈ s.pendingFree, j < s.heap.size
+  /-- none of the heap's debug assertions (`retain` / `release` / `get_binary_data` / `materialize`
+  of a freed slot, `release` underflow) has fired -/
+  noUaf : s.uaf = false
 
 /-- a handle that may be used: its slots exist and are not freed -/
 def Live (s : State) (v : Val) : Prop := ∀ j, 0 < v.count j → j < s.heap.size ∧ s.isFreed j = false
@@ -78,8 +81,9 @@ structure HeapEq (s t : State) : Prop where
   pendingFree : t.pendingFree = s.pendingFree
   freed : t.freed = s.freed
   fresh : t.fresh = s.fresh
+  uaf : t.uaf = s.uaf
 
-theorem HeapEq.refl (s : State) : HeapEq s s := ⟨rfl, rfl, rfl, rfl, rfl, rfl⟩
+theorem HeapEq.refl (s : State) : HeapEq s s := ⟨rfl, rfl, rfl, rfl, rfl, rfl, rfl⟩
 theorem HeapEq.rc {s t : State} (h : HeapEq s t) (i : Nat) : t.rc i = s.rc i := by simp [State.rc, h.refcounts]
 theorem HeapEq.isFreed {s t : State} (h : HeapEq s t) (i : Nat) : t.isFreed i = s.isFreed i := by
   simp [State.isFreed, h.freed]
@@ -125,6 +129,7 @@ theorem inv_retain_add {s : State} (h : Inv s) {v : Val} (hv : Live s v) {t : St
     | inl hp => exact Or.inl hp
     | inr hf => exact Or.inr (fresh_retain s v i (by omega) hf)
   · intro j hj; rw [ht.pendingFree, pendingFree_retain] at hj; rw [hheap]; exact h.pendLt j hj
+  · rw [ht.uaf, uaf_retain s v (fun j hj => (hv j hj).2)]; exact h.noUaf
 
 /-- **remove from a root and release** -/
 theorem inv_remove_release {s : State} (h : Inv s) {v : Val} {s1 : State} (h1 : HeapEq s s1)
@@ -158,6 +163,9 @@ theorem inv_remove_release {s : State} (h : Inv s) {v : Val} {s1 : State} (h1 : 
     | inr hp =>
       have : 0 < s.rc j := by rw [h.acct j]; have := hc j; omega
       rw [← h.shapeRc]; exact rc_pos_lt this
+  · rw [uaf_release s1 v (fun j => by rw [h1.rc, h.acct j]; have := hc j; omega)
+      (fun j hj => by rw [h1.isFreed] at hj; rw [h1.rc]; exact h.freedZero j hj), h1.uaf]
+    exact h.noUaf
 
 /-- **move between roots** (no count changes) -/
 theorem inv_move {s : State} (h : Inv s) {t : State} (ht : HeapEq s t)
@@ -174,5 +182,6 @@ theorem inv_move {s : State} (h : Inv s) {t : State} (ht : HeapEq s t)
     rw [ht.heap] at hi; rw [ht.rc] at hz; rw [ht.isFreed] at hnf
     rw [ht.pendingFree, ht.fresh]; exact h.queued i hi hz hnf
   · intro j hj; rw [ht.pendingFree] at hj; rw [ht.heap]; exact h.pendLt j hj
+  · rw [ht.uaf]; exact h.noUaf
 
 end QM.Heap
